@@ -63,3 +63,6 @@ let () = register "mef2_eq" (fun () ->
   let i = next_mef () in let sub = next_list m_edge in let eps = next_q () in let opt = next_q () in
   let nv = next_nat () in
   if mef_ok i then equiv_report (encode_mef2 i sub eps opt nv) else print_endline "0")
+
+(* mefdom: same instance as mef -> 1 / 0: the VERIFIED check of the premises of C16_optimal_solution_is_closest_flow_checked *)
+let () = register "mefdom" (fun () -> let i = next_mef () in print_endline (if mef_domain_b i then "1" else "0"))
